@@ -91,6 +91,7 @@ theorem Iso.step {s t : St} {o : Obs} (h : Iso s) (op : Op) (hs : step s op = .o
   | raw k l => exact h.eff (step_eff _ (by simp) (by simp) hs).toC
   | gracefulClose k => exact h.eff (step_eff _ (by simp) (by simp) hs).toC
   | abruptClose k => exact h.eff (step_eff _ (by simp) (by simp) hs).toC
+  | creds k c => exact h.eff (step_eff _ (by simp) (by simp) hs).toC
 
 theorem Iso.run {s : St} (h : Iso s) (ops : List Op) : Iso (Srv.run s ops) := by
   induction ops generalizing s with
@@ -110,7 +111,10 @@ theorem Up.eff {s t : St} {T : Nat → Prop} (h : Up s) (hk : s.cfg.kind ≠ .on
   exact ⟨f4.trans h1, f1.trans h2, f2.trans h3, f3.trans h4, by rw [f5, h5, e.cfg]⟩
 
 theorem NoSilent.eff {s t : St} {T : Nat → Prop} (h : NoSilent s) (e : Eff s t T) : NoSilent t :=
-  fun j => by rw [(e.cli j).cred]; exact h j
+  fun j => by
+    rcases (e.cli j).cred with h1 | h1
+    · rw [h1]; exact h j
+    · exact absurd h1 (h j)
 
 theorem NoBacklog.eff {s t : St} {T : Nat → Prop} (h : NoBacklog s) (e : Eff s t T) : NoBacklog t := by
   intro j hj
@@ -249,6 +253,9 @@ theorem Accepting.step {s t : St} {o : Obs} (h : Accepting s) (hu : Unstallable 
   | abruptClose k =>
     have e := step_eff _ (by simp) (by simp) hs
     exact ⟨h.eff hu e, hu.eff e⟩
+  | creds k c =>
+    have e := step_eff _ (by simp) (by simp) hs
+    exact ⟨h.eff hu e, hu.eff e⟩
 
 
 /-! ### a well-behaved client is not affected -/
@@ -320,6 +327,13 @@ theorem others_untouched {s t : St} {o : Obs} (hk : s.cfg.kind = .threaded ∨ s
       · exact hg (by simpa [Op.client] using h.symm)
       · exact hb h
       · exact hone h) (by rw [hq]; simp)
+  | creds k c =>
+    have e := step_eff _ (by simp) (by simp) hs
+    exact e.exact hpool g (by
+      intro h; rcases h with h | h | h
+      · exact hg (by simpa [Op.client] using h.symm)
+      · exact hb h
+      · exact hone h) (by rw [hq]; simp)
 
 /-- the same for the pool, up to membership of `Server.clients`, for a client that is not waiting in the queue -/
 theorem others_untouched_pool {s t : St} {o : Obs} (hk : s.cfg.kind = .pool)
@@ -363,6 +377,12 @@ theorem others_untouched_pool {s t : St} {o : Obs} (hk : s.cfg.kind = .pool)
       · exact hg (by simpa [Op.client] using h.symm)
       · exact hb h
       · exact hone h) hq
+  | creds k c =>
+    exact (step_eff _ (by simp) (by simp) hs).frame g (by
+      intro h; rcases h with h | h | h
+      · exact hg (by simpa [Op.client] using h.symm)
+      · exact hb h
+      · exact hone h) hq
 
 
 /-! ### the pool's queue -/
@@ -378,8 +398,10 @@ theorem others_untouched_pool {s t : St} {o : Obs} (hk : s.cfg.kind = .pool)
   unfold serveClient; simp
 @[simp] theorem authServe_queue (s : St) (k : Nat) : (authServe s k).queue = s.queue := by
   unfold authServe; split
-  · split <;> (try split) <;> simp
   · simp
+  · split
+    · split <;> (try split) <;> simp
+    · simp
 
 theorem acceptOne_queue (s : St) (k : Nat) (hk : s.cfg.kind ≠ .pool) : (acceptOne s k).queue = s.queue := by
   unfold acceptOne; split <;> simp_all
@@ -399,6 +421,13 @@ theorem send_queue (s : St) (k : Nat) (l : List Item) (hk : s.cfg.kind ≠ .pool
   unfold send; split
   · rfl
   · rw [wake_queue _ k (by simpa using hk)]; rfl
+
+theorem supply_queue (s : St) (k : Nat) (c : Cred) (hk : s.cfg.kind ≠ .pool) : (supply s k c).queue = s.queue := by
+  unfold supply; split
+  · rfl
+  · split
+    · simp [hk]; split <;> simp
+    · rfl
 
 /-- a threaded, forking or one-shot server never uses the queue -/
 theorem step_queue {s t : St} {o : Obs} (op : Op) (hk : s.cfg.kind ≠ .pool) (h : step s op = .ok (t, o)) :
@@ -427,6 +456,10 @@ theorem step_queue {s t : St} {o : Obs} (op : Op) (hk : s.cfg.kind ≠ .pool) (h
     simp only [step] at h; split at h
     · cases h
     · simp only [Except.ok.injEq, Prod.mk.injEq] at h; rw [← h.1, send_queue _ _ _ (by simpa using hk)]; rfl
+  | creds k c =>
+    simp only [step] at h; split at h
+    · cases h
+    · simp only [Except.ok.injEq, Prod.mk.injEq] at h; rw [← h.1, supply_queue _ _ _ hk]
 
 /-- pool: a descriptor waits in the queue only while every worker is blocked -/
 def QInv (s : St) : Prop := s.queue ≠ [] → freeWorkers s = 0
@@ -461,12 +494,15 @@ theorem poolBuild_QInv (s : St) (k : Nat) (h : QInv s) : QInv (poolBuild s k) :=
 theorem poolAccept_QInv (s : St) (k : Nat) (h : QInv s) : QInv (poolAccept s k) := by
   unfold poolAccept
   split
+  · exact h.congr rfl rfl rfl
+  split
   · split
     · exact poolBuild_QInv s k h
     · exact h.congr rfl rfl rfl
     · split
       · exact h.congr rfl rfl rfl
       · exact h.congr rfl rfl rfl
+    · exact h.congr rfl rfl rfl
   · exact poolBuild_QInv s k h
 
 theorem acceptOne_QInv (s : St) (k : Nat) (hk : s.cfg.kind = .pool) (h : QInv s) : QInv (acceptOne s k) := by
@@ -528,7 +564,22 @@ theorem QInv.step {s t : St} {o : Obs} (h : QInv s) (hk : s.cfg.kind = .pool) (o
     · cases hs
     · simp only [Except.ok.injEq, Prod.mk.injEq] at hs; rw [← hs.1]
       exact send_QInv _ _ _ (by simpa using hk) (h.congr rfl rfl rfl)
-
+  | creds k c =>
+    simp only [Srv.step] at hs; split at hs
+    · cases hs
+    · simp only [Except.ok.injEq, Prod.mk.injEq] at hs; rw [← hs.1]
+      unfold supply
+      split
+      · exact h.congr rfl rfl rfl
+      · split
+        · simp only [hk, if_true]
+          split
+          · unfold poolAuthDone
+            exact acceptAll_QInv _ _ (by simpa using hk)
+              ((poolBuild_QInv _ k (h.congr (t := s.set k { s.cli k with cred := c }) rfl rfl rfl)).congr rfl rfl rfl)
+          · unfold poolAuthGone
+            exact acceptAll_QInv _ _ (by simpa using hk) (h.congr rfl rfl rfl)
+        · exact h.congr rfl rfl rfl
 
 /-! ### a ready client is answered -/
 
@@ -537,6 +588,7 @@ def expected (c : Cli) (nextObj : Nat) : ReqKind → Reply
   | .ping => .pong
   | .lend => .ref nextObj
   | .probe oid => if c.table.contains oid then .resolved else .keyError
+  | .drop _ => .done
 
 theorem Ready.usable {s : St} {g : Nat} (h : Ready (s.cli g)) : usable s g = true := by
   obtain ⟨h1, _, _, h4, h5, h6, _⟩ := h
@@ -714,6 +766,7 @@ theorem Up.step {s t : St} {o : Obs} (h : Up s) (hk : s.cfg.kind ≠ .oneshot) (
   | raw k l => exact h.eff hk (step_eff _ (by simp) (by simp) hs)
   | gracefulClose k => exact h.eff hk (step_eff _ (by simp) (by simp) hs)
   | abruptClose k => exact h.eff hk (step_eff _ (by simp) (by simp) hs)
+  | creds k c => exact h.eff hk (step_eff _ (by simp) (by simp) hs)
 
 /-- a worker is free in every state the run passes through -/
 def FreeWorkerAlong (s : St) : List Op → Prop
